@@ -712,5 +712,14 @@ func runC01(r *hx.Result, rng *hx.Rng, thorough bool, replay string) error {
 			return err
 		}
 	}
+	svcRuns, svcOps := 2, 120
+	if thorough {
+		svcRuns, svcOps = 10, 400
+	}
+	for k := 0; k < svcRuns; k++ {
+		if err := c01Service(r, rng.Fork(), svcOps); err != nil {
+			return fmt.Errorf("service-level: %w", err)
+		}
+	}
 	return nil
 }
